@@ -289,9 +289,16 @@ def run(ctx, chk, tier="quick"):
     # ---- O5 siblings
     if len(descriptors) == 2:
         a, b = descriptors["rise"], descriptors["recession"]
-        chk.ob("C09.O5", a == b, ("spowtd/rise.py", "compute_rise_offsets", 0),
-               "rise: %s; recession: %s" % (a, b), "the two sibling implementations make the same decisions",
-               key="siblings|agree", why="one curve referenced differently from the other breaks the shared origin convention")
+        # only decisions that were decided on both sides can disagree; an undecided one is already reported as such
+        common = sorted(k for k in set(a) & set(b) if a[k] not in (None, "unknown") and b[k] not in (None, "unknown"))
+        undecided = sorted((set(a) | set(b)) - set(common))
+        a_, b_ = {k: a[k] for k in common}, {k: b[k] for k in common}
+        if a_ != b_ or not undecided:
+            chk.ob("C09.O5", a_ == b_, ("spowtd/rise.py", "compute_rise_offsets", 0),
+                   "rise: %s; recession: %s" % (a_, b_), "the two sibling implementations make the same decisions",
+                   key="siblings|agree", why="one curve referenced differently from the other breaks the shared origin convention")
+        else:
+            chk.indeterminate("C09.O5", ("spowtd/rise.py", "compute_rise_offsets", 0), "sibling comparison: %s not decided on one side" % undecided)
     # ---- O6 CLI
     disp, branches = dispatch_branches(ctx)
     opts = task_options(ctx)
@@ -322,6 +329,17 @@ def run(ctx, chk, tier="quick"):
             # entry passes it on
             inner = [c for c in ast.walk(ef.node) if isinstance(c, ast.Call) and ctx.cg.resolve_callee(ef, c.func) == [fq]]
             passes = bool(inner) and any(isinstance(a, ast.Name) and a.id == pname for c in inner for a in list(c.args) + [k.value for k in c.keywords])
+            if inner and not passes:
+                ip = ctx.func(fq).params
+                vals = []
+                for c in inner:
+                    if len(c.args) > 1:
+                        vals.append(c.args[1])
+                    vals += [k.value for k in c.keywords if len(ip) > 1 and k.arg == ip[1]]
+                if vals and not all(isinstance(v_, (ast.Name, ast.Constant)) for v_ in vals):
+                    chk.indeterminate("C09.O6", where_of(ef, inner[0]), "%s: the reference handed on by %s is computed, not the parameter itself: %s"
+                                      % (label, entry, ast.unparse(vals[0])[:60]))
+                    continue
             okc = okc and passes
         chk.ob("C09.O6", okc, where_of(disp, br), "%s: %s" % (label, desc), "-r (float) reaches the reference parameter",
                key="cli|%s|reference" % label, why="an unwired option silently uses the default origin")
